@@ -32,7 +32,7 @@ def pinned_value(row, name, rng):
 
 def build_ops(ctx: Ctx, table: list, rng: random.Random) -> list[dict]:
     ops = []
-    nseeds = 3 if ctx.quick else 60
+    nseeds = 3 if ctx.quick else 200
     for row in table:
         cc = gen.cc_of(row)
         if gen.row_classes(row) is None:
